@@ -158,6 +158,47 @@ fn pack_case(rep: &mut Report, w: u32) -> bool {
     ok
 }
 
+/// 4-channel HSL paths: the colour part must equal the 3-channel conversion
+/// and alpha must be carried through unchanged.
+fn alpha_case(rep: &mut Report, c: [u8; 4], f: [f32; 4]) {
+    let r = catch(|| {
+        let c4: Color4 = rgba(c[0], c[1], c[2], c[3]);
+        let h4 = c4.to_hsla();
+        let back = h4.to_rgba();
+        let h3 = rgb(c[0], c[1], c[2]).to_hsl();
+        let b3 = h3.to_rgb();
+        (h4.0, back.0, h3.0, b3.0, h4.to_hsl().0)
+    });
+    match r {
+        Err(m) => rep.violation("color.hsla_panicked", format!("to_hsla/to_rgba panicked: {m}"), Json::obj().set("rgba8", format!("{c:?}"))),
+        Ok((h4, back, h3, b3, h43)) => {
+            if h4[..3] != h3[..] || h4[3] != c[3] || back[..3] != b3[..] || back[3] != c[3] || h43 != h3 {
+                rep.violation("color.alpha_or_channels_not_kept", format!("rgba{c:?}: to_hsla={h4:?} (3-channel {h3:?}), back to_rgba={back:?} (3-channel {b3:?})"), Json::obj().set("rgba8", format!("{c:?}")));
+                return;
+            }
+        }
+    }
+    let r = catch(|| {
+        let c4: Color4f = rgba(f[0], f[1], f[2], f[3]);
+        let h4 = c4.to_hsla();
+        let back = h4.to_rgba();
+        let h3 = rgb(f[0], f[1], f[2]).to_hsl();
+        let b3 = h3.to_rgb();
+        (h4.0, back.0, h3.0, b3.0)
+    });
+    match r {
+        Err(m) => rep.violation("color.hsla_panicked", format!("float to_hsla/to_rgba panicked: {m}"), Json::obj().set("rgba_f32", f32v(&f))),
+        Ok((h4, back, h3, b3)) => {
+            let same = |a: &[f32], b: &[f32]| a.iter().zip(b).all(|(x, y)| x.to_bits() == y.to_bits());
+            if !same(&h4[..3], &h3) || h4[3].to_bits() != f[3].to_bits() || !same(&back[..3], &b3) || back[3].to_bits() != f[3].to_bits() {
+                rep.violation("color.alpha_or_channels_not_kept", format!("rgba{f:?}: to_hsla={h4:?} (3-channel {h3:?}), back to_rgba={back:?} (3-channel {b3:?})"), Json::obj().set("rgba_f32", f32v(&f)));
+                return;
+            }
+        }
+    }
+    rep.count("alpha_path_checks");
+}
+
 fn clamp_case(rep: &mut Report, v: [f32; 4]) {
     let exp = |x: f32| -> Option<u8> {
         if x.is_nan() {
@@ -215,6 +256,15 @@ pub fn run(cfg: &Cfg, rep: &mut Report) {
         match r2.violations.values().next() {
             None => Ok(()),
             Some(v) => Err(v.firsts[0].detail.clone()),
+        }
+    });
+
+    rep.pin("F16.u8_add_overflow", {
+        let c: Color4 = rgba(1, 254, 128, 7);
+        let diff: Vector<[i32; 4], re::math::color::Rgba> = Vector::new([i32::MAX, -i32::MAX, 0, 0]);
+        match catch(|| c.add(&diff).0) {
+            Ok([255, 0, 128, 7]) => Ok(()),
+            other => Err(format!("rgba(1,254,128,7) + (i32::MAX, -i32::MAX, 0, 0) = {other:?}, expected saturation to [255, 0, 128, 7]")),
         }
     });
 
@@ -289,6 +339,8 @@ pub fn run(cfg: &Cfg, rep: &mut Report) {
         rgbf_case(rep, c);
         hslf_case(rep, c);
         hue_wrap_case(rep, c[1], c[2]);
+        let w = rng.u32();
+        alpha_case(rep, w.to_be_bytes(), [c[0], c[1], c[2], rng.f32_in(0.0, 1.0)]);
         rep.add("f32_conversions", 4);
         if i < 2 {
             rep.sample(|| Json::obj().set("triple", f32v(&c)));
@@ -342,12 +394,29 @@ pub fn run(cfg: &Cfg, rep: &mut Report) {
                 break;
             }
         }
+        // differences far beyond ±255 (scaled or extrapolated differences
+        // are legitimate arguments): still saturates, never wraps
+        for d in [256i32, -256, 32767, -32768, 32768, -32769, 40000, -40000, 65535, 65536, -65536, 65537, 1 << 24, -(1 << 24), i32::MAX - 255, i32::MIN + 255, i32::MAX, i32::MIN] {
+            let c: Color4 = rgba(ch, 255 - ch, 128, 7);
+            let diff: Vector<[i32; 4], re::math::color::Rgba> = Vector::new([d, d.checked_neg().unwrap_or(i32::MAX), d / 3, 0]);
+            let sat = |c: u8, d: i32| (c as i64 + d as i64).clamp(0, 255) as u8;
+            let exp = [sat(ch, d), sat(255 - ch, d.checked_neg().unwrap_or(i32::MAX)), sat(128, d / 3), 7];
+            match catch(|| c.add(&diff).0) {
+                Ok(got) if got == exp => {}
+                other => {
+                    rep.violation("color.u8_add_not_saturating", format!("rgba({ch},{},128,7) + ({d},{},{},0) = {other:?}, expected saturation to {exp:?}", 255 - ch, d.checked_neg().unwrap_or(i32::MAX), d / 3), Json::obj().set("channel", ch as u32).set("delta", d));
+                    break;
+                }
+            }
+            rep.add("saturating_add_large_deltas", 1);
+        }
         rep.evaluations += 510;
         rep.case(i | 3 << 40, true);
         rep.add("saturating_add_pairs", 511);
     });
-    rep.exhaustive.push("8-bit Affine::add over all 256 × 511 (channel, delta) pairs".into());
+    rep.exhaustive.push("8-bit Affine::add over all 256 × 511 (channel, delta) pairs, plus 18 large deltas up to i32::MIN/MAX per channel value".into());
     rep.floor("f32_conversions", 1_000_000);
+    rep.floor("alpha_path_checks", 500_000);
     rep.floor("packing_words", 1 << 24);
     rep.floor("saturating_add_pairs", 256 * 511);
     let _ = hsla(0u8, 0, 0, 0);
